@@ -275,3 +275,93 @@ def pair_allele_swap_step(p: int, q: int, markov_blanket: A[iN, 1], sample_genot
     with before_stmt("proposal = count_allele(sample_genotypes[p], allele_p) * count_allele(sample_genotypes[q], allele_q)"):
         lemma_cnt_pos(sample_genotypes[p], sample_genotypes.shape[1], index_p)
         lemma_cnt_pos(sample_genotypes[q], sample_genotypes.shape[1], index_q)
+
+
+@spec_abstract
+def MBLP(target: int, SG: A[int, 2], ploidy: A[int, 1], parents: A[int, 2], children: A[int, 2], tau: A[int, 2], lam: A[float, 2], err: A[float, 2], lf: A[xfloat, 1]) -> xfloat:
+    """joint log probability of the Markov blanket of individual `target` (abstract)"""
+
+
+@spec
+def MBLPU(target: int, k: int, a: int, SG: A[int, 2], ploidy: A[int, 1], parents: A[int, 2], children: A[int, 2], tau: A[int, 2], lam: A[float, 2], err: A[float, 2], lf: A[xfloat, 1]) -> xfloat:
+    return MBLP(target, arr2(lambda x, y: ite(x == target and y == k, a, SG[x, y])), ploidy, parents, children, tau, lam, err, lf)
+
+
+@contract("mchap.pedigree.prior.markov_blanket_log_probability", trusted=True, props=["C18"])
+def markov_blanket_log_probability(target_index: int, sample_genotypes: A[iN, 2], sample_ploidy: A[iN, 1], sample_parents: A[iN, 2], sample_children: A[iN, 2], gamete_tau: A[iN, 2], gamete_lambda: A[f8, 2], gamete_error: A[f8, 2], log_frequencies: A[f8, 1], dosage: A[iN, 1], dosage_p: A[iN, 1], dosage_q: A[iN, 1], gamete_p: A[iN, 1], gamete_q: A[iN, 1], constraint_p: A[iN, 1], constraint_q: A[iN, 1], dosage_log_frequencies: A[f8, 1]) -> float:
+    modifies(dosage, dosage_p, dosage_q, gamete_p, gamete_q, constraint_p, constraint_q, dosage_log_frequencies)
+    ensures(not isnan(result))
+    ensures(result == MBLP(target_index, sample_genotypes, sample_ploidy, sample_parents, sample_children, gamete_tau, gamete_lambda, gamete_error, log_frequencies))
+
+
+@contract("mchap.pedigree.mcmc.metropolis_hastings_probabilities", machine_ints=True, props=["C18", "C09"], variants=[{"llk_cache": "some"}])
+def metropolis_hastings_probabilities(target_index: int, allele_index: int, sample_genotypes: A[iN, 2], sample_ploidy: A[iN, 1], sample_parents: A[iN, 2], sample_children: A[iN, 2], gamete_tau: A[iN, 2], gamete_lambda: A[f8, 2], gamete_error: A[f8, 2], sample_read_dists: A[f8, 4], sample_read_counts: A[i8, 2], haplotypes: A[i1, 2], log_frequencies: A[f8, 1], llk_cache: Opt[FDict2], dosage: A[iN, 1], dosage_p: A[iN, 1], dosage_q: A[iN, 1], gamete_p: A[iN, 1], gamete_q: A[iN, 1], constraint_p: A[iN, 1], constraint_q: A[iN, 1], dosage_log_frequencies: A[f8, 1]) -> A[f8, 1]:
+    requires(NS >= 1, 0 <= target_index, target_index < NS, sample_genotypes.shape[0] == NS, sample_read_dists.shape[0] == NS, sample_read_counts.shape[0] == NS, sample_read_counts.shape[1] == NR)
+    requires(P <= sample_genotypes.shape[1], sample_genotypes.shape[1] <= 2 ** 20, 0 <= allele_index, allele_index < P, 2 <= U, U <= 127, sample_read_dists.shape[2] == NN)
+    requires(forall(0, U, lambda h: forall(0, NN, lambda j: 0 <= haplotypes[h, j] and haplotypes[h, j] < sample_read_dists.shape[3])))
+    requires(SAMPLEOK(sample_genotypes, sample_read_dists, sample_read_counts, haplotypes, target_index, P, U, NN, sample_read_dists.shape[3], NR))
+    requires(implies(llk_cache is not None, DCOH3(llk_cache, sample_read_dists, sample_read_counts, haplotypes, sample_ploidy, NS, NN, NR, U)))
+    # proved domain: every option has a finite likelihood and blanket probability (error-rate encoded reads, positive gamete error)
+    requires(forall(0, U, lambda a: not isninf(LLKAZU(sample_read_dists[target_index], sample_read_counts[target_index], haplotypes, sample_genotypes, target_index, allele_index, a, P, NN, NR)) and not isninf(MBLPU(target_index, allele_index, a, sample_genotypes, sample_ploidy, sample_parents, sample_children, gamete_tau, gamete_lambda, gamete_error, log_frequencies))))
+    modifies(sample_genotypes, llk_cache, dosage, dosage_p, dosage_q, gamete_p, gamete_q, constraint_p, constraint_q, dosage_log_frequencies)
+    ensures(forall(0, NS, lambda x: forall(0, sample_genotypes.shape[1], lambda y: sample_genotypes[x, y] == old(sample_genotypes)[x, y])))
+    ensures(len(result) == U, FSUM(result, 0, U) == 1, forall(0, U, lambda a: finite(result[a]) and result[a] >= 0))
+    ensures(implies(llk_cache is not None, DCOH3(llk_cache, sample_read_dists, sample_read_counts, haplotypes, sample_ploidy, NS, NN, NR, U)))
+    with defs():
+        NS = len(sample_ploidy)
+        NR = sample_read_dists.shape[1]
+        NN = haplotypes.shape[1]
+        U = len(haplotypes)
+        P = sample_ploidy[target_index]
+    with entry():
+        SG0 = val(sample_genotypes)
+        RDT = val(sample_read_dists[target_index])
+        RCT = val(sample_read_counts[target_index])
+        C0 = val(llk_cache)
+        lemma_cnt_pos(sample_genotypes[target_index], sample_genotypes.shape[1], allele_index)
+    with before_call("log_likelihood_alleles_cached", 0):
+        SA = log_likelihood_alleles_cached_arg_genotype_alleles
+        MASK = msel_mask0
+        with forall_intro(t, 0, P, 0 <= SA[t] and SA[t] < U):
+            assert_(SA[t] == sample_genotypes[target_index, sort0(t)])
+        with forall_intro(r, 0, len(read_counts), read_counts[r] > 0):
+            assert_(read_counts[r] == RCT[msel_src1(r)])
+        lemma_dcoh3_to_2(llk_cache, sample_read_dists, sample_read_counts, haplotypes, sample_ploidy, NS, NN, NR, U, target_index, reads, read_counts, MASK, len(read_counts))
+    with after_call("log_likelihood_alleles_cached", 0):
+        # the current likelihood is LLKAZU(.., current allele)
+        GC = arr1(lambda t: ite(t == allele_index, current_allele, SG0[target_index, t]))
+        lemma_llkaz_perm(reads, read_counts, haplotypes, GC, SA, arr1(lambda t: sort0(t)), arr1(lambda t: sort0_inv(t)), P, NN, len(reads))
+        lemma_masked_llk(RDT, RCT, reads, read_counts, MASK, haplotypes, GC, P, NN, NR, len(read_counts))
+        unfold(LLKAZU(RDT, RCT, haplotypes, SG0, target_index, allele_index, current_allele, P, NN, NR))
+    with after_call("markov_blanket_log_probability", 0):
+        unfold(MBLPU(target_index, allele_index, current_allele, SG0, sample_ploidy, sample_parents, sample_children, gamete_tau, gamete_lambda, gamete_error, log_frequencies))
+    with loop(0):
+        invariant(0 <= i, i <= n_alleles, n_alleles == U, ploidy == P, current_allele == SG0[target_index, allele_index], len(log_accept) == U, allele_copies >= 1, finite(llk), finite(lprior))
+        invariant(val(sample_genotypes) == arr2(lambda x, y: ite(x == target_index and y == allele_index, sample_genotypes[target_index, allele_index], SG0[x, y])))
+        invariant(0 <= sample_genotypes[target_index, allele_index], sample_genotypes[target_index, allele_index] < U)
+        invariant(forall(0, i, lambda b: not isnan(log_accept[b]) and implies(b != current_allele, not isninf(log_accept[b]) and log_accept[b] <= 0) and implies(b == current_allele, isninf(log_accept[b]))))
+        invariant(DCOH2(llk_cache, target_index, reads, read_counts, haplotypes, P, NN, len(reads), U))
+        invariant(forall(lambda s2, k2: implies(s2 != target_index, ((s2, k2) in llk_cache) == ((s2, k2) in C0) and same(llk_cache[s2, k2], C0[s2, k2]))))
+    with before_call("log_likelihood_alleles_cached", 1):
+        SB = log_likelihood_alleles_cached_arg_genotype_alleles
+        GU = arr1(lambda t: ite(t == allele_index, i, SG0[target_index, t]))
+        with forall_intro(t, 0, P, SB[t] == GU[sort1(t)] and 0 <= SB[t] and SB[t] < U):
+            assert_(SB[t] == sample_genotypes[target_index, sort1(t)])
+    with after_call("log_likelihood_alleles_cached", 1):
+        lemma_llkaz_perm(reads, read_counts, haplotypes, GU, SB, arr1(lambda t: sort1(t)), arr1(lambda t: sort1_inv(t)), P, NN, len(reads))
+        lemma_masked_llk(RDT, RCT, reads, read_counts, MASK, haplotypes, GU, P, NN, NR, len(read_counts))
+        unfold(LLKAZU(RDT, RCT, haplotypes, SG0, target_index, allele_index, i, P, NN, NR))
+    with after_call("markov_blanket_log_probability", 1):
+        unfold(MBLPU(target_index, allele_index, i, SG0, sample_ploidy, sample_parents, sample_children, gamete_tau, gamete_lambda, gamete_error, log_frequencies))
+    with before_stmt("allele_copies_i = count_allele(sample_genotypes[target_index], i)"):
+        lemma_cnt_pos(sample_genotypes[target_index], sample_genotypes.shape[1], allele_index)
+    with before_stmt("probabilities[current_allele] = 1 - probabilities.sum()"):
+        PB = val(probabilities)
+        ax_exp_mono_all()
+        ax_exp_zero()
+        lemma_exp_neg_log(n_alleles - 1)
+        lemma_fsum_bound(PB, 0, U, exp(-real(log(n_alleles - 1))), current_allele)
+    with after_stmt("probabilities[current_allele] = 1 - probabilities.sum()"):
+        lemma_fsum_upd(PB, probabilities, 0, U, current_allele)
+    with exit_():
+        lemma_dcoh2_to_3(llk_cache, C0, sample_read_dists, sample_read_counts, haplotypes, sample_ploidy, NS, NN, NR, U, target_index, reads, read_counts, MASK, len(read_counts))
